@@ -102,7 +102,7 @@ theorem loopErrs_evs (X : SchemaX) (o : VOpts) (cx : Cx) : ∀ (rest done : List
 def FreshLevel (sibs : List DNode) : Prop := ∀ n ∈ sibs, n.flags.new = true ∧ n.flags.dflt = false
 
 /-- **`lyd_validate_new` on fresh siblings**: nothing is deleted, nothing recorded, `LYD_NEW` is cleared -/
-theorem validateNew_fresh (X : SchemaX) (o : VOpts) (cx : Cx) (sibs : List DNode) (h : FreshLevel sibs) :
+theorem validateNew_freshLevel (X : SchemaX) (o : VOpts) (cx : Cx) (sibs : List DNode) (h : FreshLevel sibs) :
     (validateNew X o cx sibs).1 = sibs.map normNew ∧ (validateNew X o cx sibs).2.evs = [] := by
   unfold validateNew
   obtain ⟨h1, h2⟩ := (choiceR_allNew_L X cx (X.kidsOf cx.parent) sibs (fun n hn => (h n hn).1)).1
@@ -235,7 +235,7 @@ theorem subtreeNode_fresh (X : SchemaX) (o : VOpts) (hok : OkBelowL X.base X.top
     rw [subtreeNode]
     dsimp only
     obtain ⟨hlev, hkids⟩ := freshLevel_of ks hf
-    obtain ⟨n1, n2⟩ := validateNew_fresh X o (cx.descend X.base before (.inner s f m ks)) ks hlev
+    obtain ⟨n1, n2⟩ := validateNew_freshLevel X o (cx.descend X.base before (.inner s f m ks)) ks hlev
     have hanc : (cx.descend X.base before (.inner s f m ks)).keysOld.anc ≠ [] := by
       apply keysOld_anc_ne
       simp [Cx.descend]
@@ -359,7 +359,7 @@ theorem valdiff_fresh_top (X : SchemaX) (o : VOpts) (fx : Diff.Fixes) (t : List 
     valdiffExact X o fx t = true ∧ ∃ D, validateDiff X o t = some D ∧ D.length = (validate X o t).evs.length := by
   obtain ⟨htree, hevs⟩ := validate_evs_eq X o t hpe
   obtain ⟨hlev, hkids⟩ := freshLevel_of t hf
-  obtain ⟨n1, n2⟩ := validateNew_fresh X o {} t hlev
+  obtain ⟨n1, n2⟩ := validateNew_freshLevel X o {} t hlev
   have tr := implL_tr X o {} X.top (validateNew X o {} t).1 hok
   -- the walk below the top level records nothing (every event there has a non-empty ancestor path)
   have hw := walkList_fresh X.base (subtreeNode X o (walkFuel X t) {}) (implL X o {} X.top (validateNew X o {} t).1).1 []
